@@ -83,6 +83,12 @@ CLAIMED = {
         text="Theorems for every positive scale, every offset, every rational coordinate: round-half-even moves a value by at most 1/2 and stays between integer bounds, so an accepted assignment stores an integer within 32 bits whose rendering is within half a step of the value (C11_assign), and a value outside the window is refused with nothing stored (C11_refused, C11_refused_keeps); for every operation (header edits in place or by rebinding, LasData and record assignments, change_scaling) accepted or refused, every stored coordinate still fits 32 bits (C11_inv_step: never wraps); what is presented is X*scale+offset under the record's current scaling; writing yields the header's scaling with every coordinate within half a header step of what was presented, or an error, and is a function of the state (caller untouched); the same for scale-aware records streamed into a writer/appender with another scaling (C11_stream, also the C06 rescale claim). The model carries the Python aliasing between header and record scale arrays (including the synchronisation that precedes the bounds check of a refused las.x assignment), and is compared with real histories: exactly on dyadic scalings (ties included), away from ties on decimal scalings.",
         note="Trusted / partial: float64 evaluation of round((v-o)/s), of X*s+o and of the window test versus exact arithmetic - validated on dyadic inputs exactly and on decimal inputs away from ties (histories within 1e-5 of a tie or of the int32 window edge, or with |offset|/scale > 1e11 where a double cannot resolve the integer grid, are skipped and counted); NaN/inf coordinates are outside 'finite coordinates'.",
         design="6 (C11)"),
+    "C12": dict(
+        engine="lasdata",
+        technique="Lean 4 proof over the generated dimension tables: by-name conversion keeps every common dimension, fails exactly when a value exceeds a narrower target field, keeps count and extra bytes, lost dimensions = set difference (all 121 pairs), version decision never lowers and is always compatible; correspondence with laspy.convert on record bytes",
+        text="The conversion is modelled at the level of named dimensions over tables regenerated from laspy (dimension order, packed sub-fields and their maxima). Theorems: names are unique in every format and X, Y, Z are always common; when conversion succeeds every dimension common to source and target holds the source's value and every other target dimension is zero (C12_common); it is refused exactly when some common dimension exceeds the target dimension's maximum - never truncated (C12_loud, an iff); the point count is kept and the extra bytes are carried unchanged; lost dimensions are exactly those absent from the target; with no explicit request the version is max(current, preferred) >= current, and every accepted result is a compatible pair with the requested format. The byte-level model (unpack by the generated layout, convert, pack) is compared with the real laspy.convert on all 121 pairs with random and in-range records, typed and scaled (64-bit, multi-element) extra dimensions, VLRs and EVLRs; purity of the source is checked by deep snapshots.",
+        note="Trusted: translator tables; C02/C09 theorems tie named dimensions to bytes; deep copy of the header and VLR/EVLR carrying are checked by the oracle only (not modelled).",
+        design="6 (C12)"),
 }
 NOT_YET = "check not built yet in this round (planned per DESIGN.md section 10); not claimed until its theorems build and its check is quiet"
 
